@@ -186,7 +186,7 @@ def norm_outputs(r):
     return out
 
 
-def call_eager(loaded, feeds, attrs, limit=8):
+def call_eager(loaded, feeds, attrs, limit=4):
     prog = loaded.prog
     args = [feeds[name] for name, _ in prog["params"]]
     try:
@@ -293,7 +293,7 @@ class Sess:
         except Exception as e:  # noqa: BLE001
             self.err = ("load", str(e)[:400])
 
-    def run(self, feeds, limit=3.0):
+    def run(self, feeds, limit=1.5):
         if self.sess is None:
             return ("err",) + self.err
         import time
@@ -304,7 +304,7 @@ class Sess:
 
         def watchdog():
             # budget in CPU seconds of this process: robust against a starved machine
-            while not done.wait(0.5):
+            while not done.wait(0.2):
                 if time.process_time() - t0 > limit:
                     ro.terminate = True
                     return
